@@ -293,6 +293,13 @@ impl<'a> Interp<'a> {
                 true
             }
             Err(e) => {
+                if vlib::is_resource_exhaustion(&format!("{e}")) {
+                    // the machine, not the database: the case is inconclusive
+                    self.out.class("inconclusive-resource-exhaustion");
+                    self.out.count("inconclusive_resource_exhaustion", 1);
+                    self.stopped = true;
+                    return false;
+                }
                 self.fail("C01", "reopen/open-failed", format!("opening the database failed: {e}"));
                 false
             }
@@ -301,6 +308,12 @@ impl<'a> Interp<'a> {
 
     pub fn fail(&mut self, prop: &str, sig: &str, msg: String) {
         self.stopped = true;
+        if vlib::is_resource_exhaustion(&msg) {
+            // the machine ran out of descriptors/threads/memory: inconclusive, not a verdict
+            self.out.class("inconclusive-resource-exhaustion");
+            self.out.count("inconclusive_resource_exhaustion", 1);
+            return;
+        }
         if let Some(as_prop) = self.report_as {
             let pre = if self.sig_prefix.is_empty() { String::new() } else { format!("{}/", self.sig_prefix) };
             self.out.fail(format!("{as_prop}/{pre}{prop}-{sig}"), msg);
